@@ -27,11 +27,11 @@ import (
 )
 
 const (
-	tQm1 = 1 << iota // candidate q-1
-	tQ               // q
-	tQp1             // q+1
-	tMax             // 0x7FFFFF
-	tZero            // 0
+	tQm1  = 1 << iota // candidate q-1
+	tQ                // q
+	tQp1              // q+1
+	tMax              // 0x7FFFFF
+	tZero             // 0
 )
 
 var rejNTTTargets = []struct {
@@ -132,6 +132,28 @@ func rbpScan(rho66 []byte, eta int) (last, first bool) {
 	return
 }
 
+// rbpBytesNeeded is the number of SHAKE256(rho66) bytes FIPS 204 Algorithm 31 reads before it has 256
+// coefficients (0 when 2000 bytes do not suffice).
+func rbpBytesNeeded(rho66 []byte, eta int) int {
+	s := shake256(2000, rho66)
+	lim := byte(14)
+	if eta == 4 {
+		lim = 8
+	}
+	acc := 0
+	for i, z := range s {
+		for _, nb := range []byte{z & 15, z >> 4} {
+			if nb <= lim {
+				acc++
+			}
+		}
+		if acc >= 256 {
+			return i + 1
+		}
+	}
+	return 0
+}
+
 // counterSeed is the 32-byte seed with the little-endian counter in bytes 0-7.
 func counterSeed(c uint64) []byte {
 	s := make([]byte, 32)
@@ -214,6 +236,24 @@ func genBoundary(r *hx.Rng, tier string, maxIt int) []string {
 					needAbove = false
 				}
 				out = append(out, fmt.Sprintf("C10|sib|%s|%s|%s", s, hx.H(rho), tag))
+			}
+		}
+		// a polynomial that needs more SHAKE256 output than one block (136 bytes: eta = 2, frequent) / than
+		// two blocks (272 bytes: eta = 4, about 6e-6 of the seeds) - an implementation that squeezes block-wise
+		// must CONTINUE the stream at the refill (seeded change C10g restarted it); counter-derived rho, found by
+		// a search with the standard library's SHAKE256
+		want := 136
+		if p.eta == 4 {
+			want = 272
+		}
+		found := 0
+		for c := uint64(0); c < 4000000 && found < 2; c++ {
+			rho := make([]byte, 66)
+			binary.LittleEndian.PutUint64(rho, c)
+			rho[8] = byte(p.eta)
+			if n := rbpBytesNeeded(rho, p.eta); n > want {
+				out = append(out, fmt.Sprintf("C10|rbp|%s|%s|?needs-%d-bytes-more-than-%d", s, hx.H(rho), n, want))
+				found++
 			}
 		}
 		for t := 0; t < 50; t++ {
